@@ -40,7 +40,7 @@ def _worker(behs):
         n += 1
         try:
             div = subreplay.run(b, i)
-        except Exception as e:
+        except BaseException as e:      # (a CancelledError that escapes the implementation is a BaseException)
             div = [("sub/harness-exception/%s" % type(e).__name__, repr(e))]
         for key, detail in div:
             out.setdefault(key, {"setup": b["setup"], "events": b["evs"], "log": [(s["a"], s["k"], s["f"]) for s in b["log"]], "detail": detail})
